@@ -32,7 +32,7 @@ def unle : Bytes → Nat
 /-- read a `k`-byte big-endian integer from the front of `bs`; Go panics (slice out of range)
 when fewer bytes are left: `none`. -/
 def readBE (k : Nat) (bs : Bytes) : Option (Nat × Bytes) :=
-  if bs.length < k then none else some (unbe (bs.take k), bs.drop k)
+  if (bs.take k).length < k then none else some (unbe (bs.take k), bs.drop k)
 
 /-- `binary.PutUvarint` for a value below `2 ^ (7 * fuel)` (fuel 10 covers uint64). -/
 def putUvarintAux : Nat → Nat → Bytes
@@ -64,7 +64,8 @@ def beWords (k : Nat) (ws : List Nat) : Bytes := ws.flatMap (be k)
 the Go loops `for i := 0; i < len(src)/8; i++` do). `fuel` ≥ number of words. -/
 def unbeWords (k : Nat) : Nat → Bytes → List Nat
   | 0, _ => []
-  | fuel + 1, bs => if k = 0 ∨ bs.length < k then [] else unbe (bs.take k) :: unbeWords k fuel (bs.drop k)
+  | fuel + 1, bs =>
+    if k = 0 ∨ (bs.take k).length < k then [] else unbe (bs.take k) :: unbeWords k fuel (bs.drop k)
 
 /-- `float64(cmpLen) / float64(srcLen) < minCompReta` for lengths below 2^32: both
 conversions are exact, the quotient is correctly rounded and `num/den` (= 17/20) is not a
